@@ -33,7 +33,7 @@ int get_opcode_offset(struct instr *instrc);
  * finds the register in @param str and copies the characters to @param reg
  * ex: "[rax+0x8]" or "rax ," -> "rax"
  */
-void get_reg_str(char *opd_str, char *reg);
+int get_reg_str(char *opd_str, char *reg);
 
 /**
  * converts @param neg_num to is negative 2's complement representation and
